@@ -14,7 +14,8 @@
    The model follows /repo after the repairs dee6410 (block written in one batch),
    2b21c7f (head switch in one batch), 3eba51b (side chain checks the signature),
    599b875 (verifyAllSideChainBlocks stores each fork block once it is verified),
-   0702a5f (a block already canonical at or below the head does not become the head again). *)
+   0702a5f (a block already canonical at or below the head does not become the head again),
+   d4052ba (side-chain verification compares the transaction root). *)
 From VF.C11 Require Import Model ProofsA ProofsB ProofsC ProofsD ProofsE ProofsF ProofsG ProofsH ProofsI ProofsJ ProofsK ProofsL ProofsM Bridge.
 From VF.gen Require Import C11Calls.
 Local Open Scope N_scope.
@@ -45,88 +46,68 @@ Print Assumptions C11_head_switch_is_one_write.
 
 (* ---- imports ---------------------------------------------------------------------------------- *)
 
-(* the open finding fixes/C11_side_chain_skips_tx_root_check.md is about blocks of body
-   class 5: the header commits to a wrong transaction root, everything else is consistent *)
-Definition no_tx_root_only (t : tree) : Prop := forall h b, info t h = Some b -> bbv b <> 5.
-
 (* After ANY history over any tree: the number->hash index from the genesis to the
    head is a parent-linked chain of stored blocks ending in the head, the head's
    state is on disk, every lookup entry points to a canonical block at or below the
    head that contains the transaction; and the running node's head is the
    database's head marker (if no import panicked). *)
-Theorem C11_import_chain_consistent :
+Theorem C11_import_consistent :
   forall t g fuel hist, wf t g ->
     let s := run t fuel (init_st g) hist in
-    chain_consistent_b t (disk_of s) (d_headB (disk_of s)) = true /\
+    consistent_b t (disk_of s) (d_headB (disk_of s)) = true /\
     (budget s = None -> cur s = d_headB (disk_of s)).
-Proof. intros t g fuel hist [A [B [C D]]]. exact (import_chain_consistent t g A B D fuel hist). Qed.
-Print Assumptions C11_import_chain_consistent.
+Proof. intros t g fuel hist [A [B [C D]]]. exact (import_consistent t g A B D fuel hist). Qed.
+Print Assumptions C11_import_consistent.
 
 (* ONLY VALID BLOCKS ARE CANONICAL - over all histories and at every crash point of
    every import: every entry of the number index (stale ones above the head
    included) is a block with a good signature, a good consensus field, a body that
-   matches the header and executes to the header's state/receipt/bloom/gas.  Block
-   validity is checked on every dispatch path of the model (plain, known,
-   ErrExistCanonical at index 0 -> side chain -> handed back, ErrExistCanonical with
-   i > 0, pruned ancestor, future).  Holds outside the open finding class: no block
-   of the tree is of body class 5. *)
-Theorem C11_only_valid_blocks_canonical_holds_outside :
-  forall t g fuel hist batch k, wf t g -> no_tx_root_only t ->
+   matches the header's transaction root and executes to the header's
+   state/receipt/bloom/gas.  Block validity is checked on every dispatch path of the
+   model (plain, known, ErrExistCanonical at index 0 -> side chain -> handed back,
+   ErrExistCanonical with i > 0, pruned ancestor, future). *)
+Theorem C11_only_valid_blocks_canonical :
+  forall t g fuel hist batch k, wf t g ->
     let s0 := run t fuel (init_st g) hist in
     canon_good t (disk_of s0) = true /\
     (budget s0 = None -> canon_good t (disk_of (crash_run t fuel s0 batch k)) = true).
 Proof.
-  intros t g fuel hist batch k [A [B [C D]]] H5 s0. split.
-  - exact (import_canon_good t g A B D H5 fuel hist).
-  - exact (crash_canon_good t g A B D H5 fuel hist batch k).
+  intros t g fuel hist batch k [A [B [C D]]] s0. split.
+  - exact (import_canon_good t g A B D fuel hist).
+  - exact (crash_canon_good t g A B D fuel hist batch k).
 Qed.
-Print Assumptions C11_only_valid_blocks_canonical_holds_outside.
-
-(* inside the class the statement is false of the code as it is: X1 (id 4) has the
-   content and state root of canonical Y1 (id 2) but commits to a wrong transaction
-   root; [4;5] is stored by the side-chain path (verifyAllSideChainBlocks does not
-   compare the transaction root), 6 imports directly on 5 and reorg makes 4 canonical.
-   The same input runs against /repo from corpus/C11/w6_tx_root_only_via_sidechain.json *)
-Definition w6_tree : tree :=
-  [mkB 1 0 0 1 [] 0 0; mkB 2 1 1 2 [1] 0 0; mkB 3 2 2 3 [2] 0 0;
-   mkB 4 1 1 2 [1] 0 5; mkB 5 4 2 2 [] 0 0; mkB 6 5 3 2 [] 0 0].
-Theorem C11_only_valid_blocks_canonical_refuted :
-  ~ (forall t g fuel hist, wf t g -> canon_good t (disk_of (run t fuel (init_st g) hist)) = true).
-Proof.
-  intros H. specialize (H w6_tree (mkB 1 0 0 1 [] 0 0) 6%nat [[2;3];[4;5];[6]]).
-  assert (Hwf : wf w6_tree (mkB 1 0 0 1 [] 0 0)) by (repeat split; reflexivity).
-  specialize (H Hwf). vm_compute in H. discriminate.
-Qed.
-Print Assumptions C11_only_valid_blocks_canonical_refuted.
+Print Assumptions C11_only_valid_blocks_canonical.
 
 (* ---- crashes ------------------------------------------------------------------------------------- *)
 
 (* Whatever database write of whatever import the process dies after: the restart
    succeeds, its head is the database's head marker, and the restarted node is
-   consistent (clauses 1-3; clause 4 is C11_only_valid_blocks_canonical_holds_outside). *)
+   consistent (all four clauses). *)
 Theorem C11_crash_consistent :
   forall t g fuel hist batch k, wf t g ->
     let s0 := run t fuel (init_st g) hist in
     let sk := crash_run t fuel s0 batch k in
     budget s0 = None ->
     exists d, recover t (disk_of sk) = Some (d, d_headB (disk_of sk)) /\
-              chain_consistent_b t d (d_headB (disk_of sk)) = true.
-Proof. intros t g fuel hist batch k [A [B [C D]]]. exact (crash_chain_consistent t g A B C D fuel hist batch k). Qed.
+              consistent_b t d (d_headB (disk_of sk)) = true.
+Proof.
+  intros t g fuel hist batch k [A [B [C D]]] s0 sk Hb.
+  destruct (crash_consistent t g A B C D fuel hist batch k Hb) as [d [R [Q _]]]. exists d. exact (conj R Q).
+Qed.
 Print Assumptions C11_crash_consistent.
 
 (* The restarted node is a node in good standing: whatever is offered to it
    afterwards (the interrupted batch, further blocks, other forks, in any order),
-   it stays consistent (all four clauses, outside the open finding class) and its
-   head follows the database. *)
+   it stays consistent (all four clauses) and its head follows the database. *)
 Theorem C11_restarted_node_stays_consistent :
-  forall t g fuel hist batch k hist2, wf t g -> no_tx_root_only t ->
+  forall t g fuel hist batch k hist2, wf t g ->
     let s0 := run t fuel (init_st g) hist in
     let sk := crash_run t fuel s0 batch k in
     budget s0 = None ->
     exists d, recover t (disk_of sk) = Some (d, d_headB (disk_of sk)) /\
       let s := run t fuel (fresh d (d_headB (disk_of sk))) hist2 in
       consistent_b t (disk_of s) (d_headB (disk_of s)) = true /\ (budget s = None -> cur s = d_headB (disk_of s)).
-Proof. intros t g fuel hist batch k hist2 [A [B [C D]]] H5. exact (restarted_run_consistent t g A B C D H5 fuel hist batch k hist2). Qed.
+Proof. intros t g fuel hist batch k hist2 [A [B [C D]]]. exact (restarted_run_consistent t g A B C D fuel hist batch k hist2). Qed.
 Print Assumptions C11_restarted_node_stays_consistent.
 
 (* ---- not wedged ------------------------------------------------------------------------------------ *)
@@ -297,6 +278,11 @@ Definition w4_tree : tree :=
 Definition w5_tree : tree :=
   [mkB 1 0 0 1 [] 0 0; mkB 2 1 1 2 [1;2] 0 0; mkB 3 2 2 2 [] 0 0;
    mkB 4 1 1 3 [1] 0 0; mkB 5 4 2 2 [2] 0 0; mkB 6 5 3 2 [] 0 0; mkB 10 6 4 2 [] 0 0].
+(* pre-d4052ba witness: X1 (id 4) has the content and state root of canonical Y1 (id 2)
+   but commits to a wrong transaction root (body class 5); corpus/C11/w6_tx_root_only_via_sidechain.json *)
+Definition w6_tree : tree :=
+  [mkB 1 0 0 1 [] 0 0; mkB 2 1 1 2 [1] 0 0; mkB 3 2 2 3 [2] 0 0;
+   mkB 4 1 1 2 [1] 0 5; mkB 5 4 2 2 [] 0 0; mkB 6 5 3 2 [] 0 0].
 Definition reoffer (t : tree) (s0 : st) (batch : list N) (further : list N) (k : nat) : N * N :=
   match recover t (disk_of (crash_run t 6 s0 batch k)) with
   | Some (d, h) =>
@@ -342,6 +328,13 @@ Example C11_regression_witnesses :
      stays 6 - crash-free and after every crash point - and block 10 on 6 is adopted *)
   (let s0 := run w5_tree 6 (init_st ex_g) [[2;3]; [4;5]; [6]] in
    cur s0 = 6 /\ cur (fst (InsertChain w5_tree 6 s0 (blocks_of w5_tree [4]))) = 6 /\
-   map (reoffer w5_tree s0 [4] [10]) (seq 0 5) = [(0, 10); (0, 10); (0, 10); (0, 10); (0, 10)]).
+   map (reoffer w5_tree s0 [4] [10]) (seq 0 5) = [(0, 10); (0, 10); (0, 10); (0, 10); (0, 10)]) /\
+  (* tx-root-only block 4 offered as a side chain whose state root is already on disk:
+     rejected as a bad body by the side-chain verification, not stored; its descendants
+     have no parent, the index stays 1-2-3 *)
+  (let s1 := run w6_tree 6 (init_st ex_g) [[2;3]] in
+   let s := run w6_tree 6 (init_st ex_g) [[2;3]; [4;5]; [6]] in
+   snd (InsertChain w6_tree 6 s1 (blocks_of w6_tree [4;5])) = EBadBody /\
+   cur s = 3 /\ d_canon (disk_of s) = [(2, 3); (1, 2); (0, 1)] /\ d_hdr (disk_of s) = d_hdr (disk_of s1)).
 Proof. vm_compute. repeat split; reflexivity. Qed.
 Print Assumptions C11_regression_witnesses.
